@@ -91,7 +91,7 @@ def peel_off_esc_code(s: str) -> Tuple[str, Optional[Token], str]:
                     ["""+'\x9b' + r"""])
                 (?P<private>)
                 (?P<numbers>
-                    (?:\d+;)*
+                    (?:\d*;)*
                     (?:\d+)?)
                 (?P<intermed>""" + '[\x20-\x2f]*)' + r"""
                 (?P<command>""" + '[\x40-\x7e]))' + r"""
@@ -119,8 +119,9 @@ def peel_off_esc_code(s: str) -> Tuple[str, Optional[Token], str]:
         d: Dict[str, Any] = m.groupdict()
         del d["front"]
         del d["rest"]
-        if "numbers" in d and all(d["numbers"].split(";")):
-            d["numbers"] = [int(x) for x in d["numbers"].split(";")]
+        if "numbers" in d and d["numbers"]:
+            # an empty parameter means the default, 0 (ECMA-48 5.4.2)
+            d["numbers"] = [int(x) if x else 0 for x in d["numbers"].split(";")]
 
         return m.groupdict()["front"], cast(Token, d), m.groupdict()["rest"]
     else:
